@@ -1,29 +1,32 @@
-"""Warm the numba caches used by the checks (both plain and bounds-checked)."""
+"""Warm the shared numba caches for every check (each warm-up is a single cache writer under a lock)."""
+import glob
 import os
 import subprocess
 import sys
 
 from vf import common
 
-CODE = r"""
-import os, sys
-from vf import common
-common.setup_env(boundscheck=bool(int(sys.argv[1])))
-strax = common.import_strax()
-import numpy as np
-from vf.harness.intervals import arr
-t = arr([(0, 1), (2, 3)]); c = arr([(0, 5)])
-strax.fully_contained_in(t, c); strax.split_by_containment(t, c); strax.touching_windows(t, c)
-strax.abs_time_to_prev_next_interval(t, c); strax.diff(t); strax.sort_by_time(t)
-print("warm", sys.argv[1])
-"""
-
 
 def main():
     env = dict(os.environ, PYTHONPATH=common.VERIF + os.pathsep + common.REPO)
-    ps = [subprocess.Popen([sys.executable, "-c", CODE, str(bc)], env=env, cwd=common.VERIF) for bc in (0, 1)]
-    rc = [p.wait() for p in ps]
-    print("warmup rc", rc)
+    env.pop("VERIF_NUMBA_PRIVATE", None)
+    env.pop("NUMBA_CACHE_DIR", None)
+    work = os.path.join(common.CACHE, "warm")
+    os.makedirs(work, exist_ok=True)
+    mods = sorted(os.path.basename(p)[:-3].upper() for p in glob.glob(os.path.join(common.VERIF, "vf", "checks", "c[0-9][0-9].py")))
+    procs = []
+    for pid in mods:
+        src = open(os.path.join(common.VERIF, "vf", "checks", pid.lower() + ".py")).read()
+        if "def warm(" not in src:
+            continue
+        modes = ("0", "1") if "boundscheck" in src else ("0",)
+        for bc in modes:
+            log = open(os.path.join(work, f"{pid}-{bc}.log"), "w")
+            procs.append((pid, bc, subprocess.Popen(
+                [sys.executable, "-m", "vf.worker", pid, work, "1500", bc, "warm"],
+                env=env, stdout=log, stderr=subprocess.STDOUT, cwd=common.VERIF)))
+    rc = {f"{pid}/{bc}": p.wait() for pid, bc, p in procs}
+    print("warmup exit codes:", rc)
     return 0
 
 
